@@ -375,14 +375,12 @@ example : (run (pbaCfg 3) 5 (.any [.term (.rune 98 []), .term (.rune 97 [])]) []
   decide +kernel
 
 /-! ## 6. facts taken from the source (regenerated on every run) -/
-theorem c17_facts :
-    Facts.memoizeCallOrder = "ResultCache().Get;data.NewIntSet;p.Parse;leftRecCtx.Inc;leftRecCtx.Filter;ResultCache().Save" ∧
-    Facts.memoizeSavedCtx = "leftRecCtx.Filter(cp)" ∧
-    Facts.cacheGetReject = "result.LeftRecCtx.Get(key)>leftRecCtx.Get(key)" ∧
-    Facts.curtailCond = "leftRecCtx.Get(parserIndex)>ctx.Reader().Remaining(pos)+1" ∧
-    Facts.curtailSlack = 1 ∧
-    Facts.seqParseConds = "nextParser!=nil;err!=nil&&(s.err==nil||err.Pos()>=s.err.Pos());mergeCurtailingParsers;res!=nil;s.parseNext(i,node,depth,ctx,leftRecCtx,pos,mergeCurtailingParsers);s.parseNext(0,rest,depth,ctx,leftRecCtx,pos,mergeCurtailingParsers);res==nil;s.lenCheck(depth);depth>0;s.nodes[depth-1]!=nil&&s.nodes[depth-1].Token()==parser.EOF" :=
-  ⟨rfl, rfl, rfl, rfl, rfl, rfl⟩
+/- (the text facts that stood here - condition lists and statement orders of Memoize, ResultCache, Any, Choice, the Sequence
+   machinery, ReturnError, SetError, Parse, re-read from the source as normalised text - are subsumed since translator v3: the
+   functions themselves are translated from the source on every run and the model is PROVED to agree with the translation
+   (Props/C01P.lean, built and audited by this property's check).  Unlike a text comparison, that tie is not broken by an
+   equivalent rewrite of the source.) -/
+theorem c17_facts : Facts.curtailSlack = 1 := rfl
 
 /-
   **The general bound — full statement, NOT proved** (kept so that it is never quietly dropped):
